@@ -98,7 +98,18 @@ class Check(PropertyCheck):
                 await app.write_network_info(network_info=pni, node_info=pnode)
                 del sim.log[:]
             ni, node = self._netinfo(c)
+            import zigpy.types as zt0
+            eui_before = bytes(sim.eui64.serialize())
+            supplied_tc = None if ni.tc_link_key.partner_ieee == zt0.EUI64.UNKNOWN else bytes(ni.tc_link_key.partner_ieee.serialize()).hex()
+            supplied_ieee = None if node.ieee == zt0.EUI64.UNKNOWN else bytes(node.ieee.serialize())
             await app.write_network_info(network_info=ni, node_info=node)
+            # what the property calls "the fields supplied", stated from the INPUT (the library updates the object it was
+            # given): when the adapter's own address could not be replaced by the supplied one, key entries are bound
+            # to the adapter's address, which then also stands for the trust centre; otherwise the supplied address counts
+            wrote_eui64 = bytes(sim.eui64.serialize()) != eui_before
+            if wrote_eui64 and supplied_ieee is not None and bytes(sim.eui64.serialize()) != supplied_ieee:
+                out["eui64_written_wrong"] = True
+            out["supplied_tc_effective"] = supplied_tc if wrote_eui64 else eui_before.hex()
             sec = [a["state"] for n, *rest in [(x[0], x[1]) if len(x) > 1 else (x[0],) for x in sim.log]
                    for a in rest if n == "setInitialSecurityState"]
             s = sec[-1]
@@ -137,7 +148,7 @@ class Check(PropertyCheck):
         finally:
             A.os.urandom = orig
             loop.close()
-        case["_effective_tc"] = out.get("effective_tc")
+        case["_effective_tc"] = out.get("supplied_tc_effective", out.get("effective_tc"))
         case["_key_size"] = out.get("key_size_effective", case["key_size"])
         return out
 
@@ -199,6 +210,11 @@ class Check(PropertyCheck):
         if s["nwk"] != c["nwk_key"] or s["seq"] != c["nwk_seq"]:
             return f"v{v}: security state carries another network key / sequence number"
         tc_flag = bool(s["bitmask"] & 0x40)
+        if obs.get("eui64_written_wrong"):
+            return f"v{v}: the adapter's address was rewritten to something other than the supplied node address"
+        if obs["effective_tc"] != obs["supplied_tc_effective"]:
+            return (f"v{v}: trust-centre address sent to the NCP / left in the network information is {obs['effective_tc']}, "
+                    f"the input determines {obs['supplied_tc_effective']}")
         if tc_flag != (obs["effective_tc"] is not None):
             return f"v{v}: HAVE_TRUST_CENTER_EUI64 flag is {tc_flag} but the trust-centre address is {obs['effective_tc']}"
         if tc_flag and s["tc"] != obs["effective_tc"]:
